@@ -15,6 +15,7 @@ CONSTANTS
   AllowConcurrent = FALSE
   GcStopsOnUnreadableHunk = TRUE
   GcBandsBeforeBlocks = TRUE
+    TailCarriesCount = TRUE
   GcRefusesHeadlessNewest = TRUE
 INVARIANTS Inv_Format Inv_NoDangling Inv_SnapRestores Inv_RecordedBytes Inv_CompleteSuccess Inv_SkippedReported Inv_GcExact
 PROPERTIES Prop_WriteOnce
